@@ -20,13 +20,20 @@ type SolverCfg struct {
 	CrossCheck bool // thorough: all solvers that answer must agree
 }
 
+// first a pure E-matching pass (fast, incomplete), then the complete configurations
 var solverCmds = [][]string{
+	{"z3-new", "-smt2", "smt.mbqi=false"},
 	{"z3-new", "-smt2"},
+	{"cvc5", "--incremental", "--lang=smt2", "--force-logic=ALL"},
 	{"z3", "-smt2"},
-	{"cvc5", "--incremental", "--lang=smt2"},
 }
 
-func solverName(cmd []string) string { return cmd[0] }
+func solverName(cmd []string) string {
+	if len(cmd) > 2 && cmd[2] == "smt.mbqi=false" {
+		return cmd[0] + "(ematching)"
+	}
+	return cmd[0]
+}
 
 func writeSMT(path string, reg *Registry, insts []ObInstance, withModel bool, only int) error {
 	var b strings.Builder
@@ -106,47 +113,102 @@ func solveObligation(o *Obligation, reg *Registry, cfg *SolverCfg) {
 	solverUsed := ""
 	var total float64
 	var outputs []string
-	for ci, cmd := range solverCmds {
+	note := func(name string) {
+		if !strings.Contains(solverUsed, name) {
+			if solverUsed != "" {
+				solverUsed += "+"
+			}
+			solverUsed += name
+		}
+	}
+	// stage 1: E-matching only (fast); a quick satisfiability probe for cover obligations
+	{
+		cmd := solverCmds[0]
 		to := cfg.TimeoutS
 		if o.Expect == "sat" {
-			// vacuity guards: a quick satisfiability probe; "unknown" counts as not refuted
-			if ci > 0 {
-				break
-			}
 			to = 2
 		}
 		ans, raw, dur := runSolver(cmd, file, to)
 		total += dur
 		if strings.Contains(raw, "(error ") && !strings.Contains(raw, "model is not available") {
-			// a malformed query is an engine error, never an answer
 			o.Status = "engine-error"
 			o.Output = fmt.Sprintf("[%s] %s", solverName(cmd), firstLines(raw, 4))
 			return
 		}
 		outputs = append(outputs, fmt.Sprintf("[%s %.2fs] %s", solverName(cmd), dur, firstLines(raw, 6)))
 		for i := 0; i < n && i < len(ans); i++ {
-			if final[i] == "" && (ans[i] == "sat" || ans[i] == "unsat") {
+			if ans[i] == "sat" || ans[i] == "unsat" {
 				final[i] = ans[i]
-				if !strings.Contains(solverUsed, solverName(cmd)) {
-					if solverUsed != "" {
-						solverUsed += "+"
+				note(solverName(cmd))
+			}
+		}
+	}
+	// stage 2: the complete configurations race on the instances that are still open
+	var open []int
+	for i := 0; i < n; i++ {
+		if final[i] == "" {
+			open = append(open, i)
+		}
+	}
+	if len(open) > 0 && o.Expect != "sat" {
+		runFile := filepath.Join(cfg.OutDir, sanitize(o.Name)+".open.smt2")
+		var sub []ObInstance
+		for _, i := range open {
+			sub = append(sub, o.Instances[i])
+		}
+		if err := writeSMT(runFile, reg, sub, false, -1); err == nil {
+			type res struct {
+				name string
+				ans  []string
+				raw  string
+				dur  float64
+			}
+			ch := make(chan res, len(solverCmds))
+			for _, cmd := range solverCmds[1:] {
+				go func(cmd []string) {
+					ans, raw, dur := runSolver(cmd, runFile, cfg.TimeoutS)
+					if strings.Contains(raw, "rror") && !strings.Contains(raw, "model is not available") {
+						ans = nil // a solver that rejects the query gives no answers
 					}
-					solverUsed += solverName(cmd)
+					ch <- res{solverName(cmd), ans, raw, dur}
+				}(cmd)
+			}
+			var maxDur float64
+			disagree := false
+			for range solverCmds[1:] {
+				r := <-ch
+				if r.dur > maxDur {
+					maxDur = r.dur
 				}
-			} else if cfg.CrossCheck && final[i] != "" && (ans[i] == "sat" || ans[i] == "unsat") && ans[i] != final[i] {
+				outputs = append(outputs, fmt.Sprintf("[%s %.2fs] %s", r.name, r.dur, firstLines(r.raw, 6)))
+				for k, i := range open {
+					if k >= len(r.ans) || (r.ans[k] != "sat" && r.ans[k] != "unsat") {
+						continue
+					}
+					if final[i] == "" {
+						final[i] = r.ans[k]
+						note(r.name)
+					} else if final[i] != r.ans[k] {
+						disagree = true
+					}
+				}
+				allDone := true
+				for _, i := range open {
+					if final[i] == "" {
+						allDone = false
+					}
+				}
+				if allDone && !cfg.CrossCheck {
+					break
+				}
+			}
+			total += maxDur
+			if disagree {
 				o.Status = "undecided"
 				o.Output = "solvers disagree: " + strings.Join(outputs, " | ")
+				o.TimeS = total
 				return
 			}
-		}
-		done := true
-		for i := 0; i < n; i++ {
-			if final[i] == "" {
-				done = false
-			}
-		}
-		if done && !cfg.CrossCheck {
-			break
 		}
 	}
 	o.TimeS = total
